@@ -183,13 +183,23 @@ where
       });
     }
 
+    // The TopicCache is shared by all the local Readers and Writers on the topic,
+    // so it may already hold samples. Only a Reader with Durability above
+    // Volatile wants those; the others start reading after them.
+    let mut read_state = ReadState::new();
+    if !qos_policy.requests_historical_data() {
+      let (latest_instant, latest_sns) = topic_cache.lock().unwrap().read_pointers_at_end();
+      read_state.latest_instant = latest_instant;
+      read_state.last_read_sn = latest_sns;
+    }
+
     Ok(Self {
       my_subscriber: subscriber,
       qos_policy,
       my_guid,
       notification_receiver: Mutex::new(notification_receiver),
       topic_cache,
-      read_state: Mutex::new(ReadState::new()),
+      read_state: Mutex::new(read_state),
       my_topic: topic,
       deserializer_type: PhantomData,
       discovery_command,
